@@ -46,6 +46,8 @@ struct rg_state {
   /* frame ghosts: number of atomic operations / of modifying operations I performed on the tracked word */
   uint64_t nops;
   uint64_t nwrites;
+  /* C02 enabledness lemmas: when set, the environment is quiet and compare_exchange_weak does not fail spuriously */
+  _Bool quiet;
   /* C10: set by the harness while an upgrade/downgrade of an owning guard runs */
   _Bool in_conv;
   /* C03/C09 (OptimisticLock): number of exclusive sections ended so far; tracked (version, commits) pair */
@@ -99,6 +101,12 @@ static inline _Bool rg_tracked(const atomic_u64 *a) { return a == g_word; }
 /* ---- RELY ------------------------------------------------------------------ */
 static inline void rg_env(void)
 {
+  if(G.quiet)
+  {
+    /* enabledness lemmas (C02): no interference during this one evaluation; ASSUME[protocol c]: counter not saturated */
+    __CPROVER_assume(T_S(g_word->v) < S_MAX);
+    return;
+  }
   uint64_t o = g_word->v;
   uint64_t w = nondet_u64();
   uint64_t c = nondet_u64();
@@ -238,7 +246,7 @@ static inline _Bool atomic_u64_compare_exchange_weak(atomic_u64 *a, uint64_t *ex
   if(!rg_tracked(a)) { uint64_t cur = nondet_u64(); if(cur == *expected && nondet_bool()) { a->v = desired; return 1; } *expected = cur; return 0; }
   rg_env();
   uint64_t o = a->v;
-  if(o == *expected && nondet_bool()) /* may fail spuriously */
+  if(o == *expected && (G.quiet || nondet_bool())) /* may fail spuriously */
   {
     a->v = desired;
     G.rmw_old = o; G.rmw_commits = G.commits;
@@ -304,8 +312,15 @@ static inline void rg_havoc_all(atomic_u64 *word)
 
 #pragma CPROVER check pop
 
+/* admission = the compatibility matrix for a fresh request (C02 enabledness: a request is admitted as soon as
+ * nothing conflicting is held) */
+#define RG_ADMIT_S(w) (T_X(w) == 0)
+#define RG_ADMIT_SIX(w) (T_X(w) == 0 && T_SIX(w) == 0)
+#define RG_ADMIT_X(w) (T_X(w) == 0 && T_SIX(w) == 0 && T_S(w) == 0)
+
 /* ---- contract vocabulary --------------------------------------------------------- */
 #define RG_FRAME __CPROVER_object_whole(&G), g_word->v
 #define RG_PRE_BASE (RG_INV(g_word->v) && RG_VIEW_INV && G.mS < (1UL << 20))
 #define RG_PRE (RG_PRE_BASE && !G.in_conv)
+#define RG_OLD_MINE_NONE (__CPROVER_old(G.mS) == 0 && __CPROVER_old(G.mSIX) == 0 && __CPROVER_old(G.mX) == 0)
 #endif
